@@ -5,6 +5,7 @@ use fuel_core::{
         Database,
         database_description::{
             DatabaseDescription,
+            DatabaseMetadata,
             off_chain::OffChain,
             on_chain::OnChain,
         },
@@ -89,6 +90,31 @@ pub fn column_lists_complete() -> Result<(), String> {
         ));
     }
     Ok(())
+}
+
+/// The database metadata record holds a `HashSet` (indexation kinds) whose
+/// serialization order differs from process to process and from set to set:
+/// replace the raw bytes by a canonical rendering before comparing dumps.
+pub fn canonicalize_metadata(dump: &mut DbDump) {
+    if let Some(col) = dump.get_mut("Metadata") {
+        for v in col.values_mut() {
+            if let Ok(m) = postcard::from_bytes::<DatabaseMetadata<fuel_core_types::fuel_types::BlockHeight>>(v) {
+                let canon = match m {
+                    DatabaseMetadata::V1 { version, height } => format!("V1 version={version} height={height}"),
+                    DatabaseMetadata::V2 {
+                        version,
+                        height,
+                        indexation_availability,
+                    } => {
+                        let mut kinds: Vec<String> = indexation_availability.iter().map(|k| format!("{k:?}")).collect();
+                        kinds.sort();
+                        format!("V2 version={version} height={height} indexation={kinds:?}")
+                    }
+                };
+                *v = canon.into_bytes();
+            }
+        }
+    }
 }
 
 pub fn dump_column<S>(store: &S, col: S::Column) -> Result<ColDump, String>
